@@ -333,6 +333,8 @@ func blockContainerLayout(context *layoutContext, box_ Box, bottomSpace pr.Float
 
 	*adjoiningMargins = append(*adjoiningMargins, box.MarginTop.V())
 	thisBoxAdjoiningMargins := adjoiningMargins
+	// true until an in-flow child that is not collapsed through is met
+	topMarginsOpen := true
 
 	collapsingWithChildren := !(pr.Is(box.BorderTopWidth) || pr.Is(box.PaddingTop) || box.IsFlexItem ||
 		box.IsGridItem || establishesFormattingContext(box_) || box.IsForRootElement)
@@ -402,17 +404,30 @@ func blockContainerLayout(context *layoutContext, box_ Box, bottomSpace pr.Float
 				bottomSpace, positionY, skipStack, firstLetterStyle, maxLines)
 			drawBottomDecoration = drawBottomDecoration || resumeAt == nil
 			adjoiningMargins = new([]pr.Float)
+			topMarginsOpen = false
 			allFootnotes = append(allFootnotes, newFootnotes...)
 		} else {
 			var (
 				adjoiningMarginsV []pr.Float
 				newMaxLines       int
 			)
-			abort, stop, resumeAt, positionY, adjoiningMarginsV, nextPage, newChildren, newMaxLines = inFlowLayout(context, box_, index, child_,
+			var childCollapsedThrough bool
+			abort, stop, resumeAt, positionY, adjoiningMarginsV, nextPage, newChildren, newMaxLines, childCollapsedThrough = inFlowLayout(context, box_, index, child_,
 				newChildren, pageIsEmpty, absoluteBoxes, fixedBoxes, adjoiningMargins,
 				bottomSpace, positionY, skipStack, firstLetterStyle, collapsingWithChildren, discard, maxLines)
 			skipStack = nil
 			adjoiningMargins = &adjoiningMarginsV
+			if collapsingWithChildren && topMarginsOpen {
+				if childCollapsedThrough {
+					// The margins of an empty child are adjoining to its
+					// parent's top margin, its bottom margin included.
+					// (the next child goes on with this very list)
+					*thisBoxAdjoiningMargins = append([]pr.Float(nil), adjoiningMarginsV...)
+					adjoiningMargins = thisBoxAdjoiningMargins
+				} else {
+					topMarginsOpen = false
+				}
+			}
 
 			if newMaxLines != -1 && maxLines != -1 {
 				maxLines = newMaxLines
@@ -503,10 +518,13 @@ func blockContainerLayout(context *layoutContext, box_ Box, bottomSpace pr.Float
 		}
 	}
 	collapsingThrough := false
-	if lastInFlowChild == nil {
+	if lastInFlowChild == nil || (collapsingWithChildren && topMarginsOpen && resumeAt == nil) {
+		// no in-flow content, or only boxes that the margins collapse through
 		collapsedMargin := collapseMargin(*adjoiningMargins)
 		// top && bottom margin of this box
-		if (box.Height == pr.AutoF || box.Height == pr.Float(0)) &&
+		// (with in-flow children, the bottom margin of the last one is adjoining
+		// to the one of this box only for an auto height)
+		if (box.Height == pr.AutoF || (box.Height == pr.Float(0) && lastInFlowChild == nil)) &&
 			getClearance(context, box, collapsedMargin) == nil &&
 			box.MinHeight == pr.Float(0) && box.BorderTopWidth == pr.Float(0) && box.PaddingTop == pr.Float(0) &&
 			box.BorderBottomWidth == pr.Float(0) && box.PaddingBottom == pr.Float(0) {
@@ -842,6 +860,7 @@ func inFlowLayout(context *layoutContext, box_ bo.Box, index int, child_ Box, ne
 	skipStack tree.ResumeStack, firstLetterStyle pr.ElementStyle, collapsingWithChildren, discard bool,
 	maxLines int) (
 	abort, stop bool, resumeAt tree.ResumeStack, _ pr.Float, _ []pr.Float, nextPage tree.PageBreak, _ []Box, _ int,
+	collapsedThrough bool, // the margins of the child collapse through it
 ) {
 	box := box_.Box()
 	lastInFlowChild := findLastInFlowChild(newChildren)
@@ -856,7 +875,7 @@ func inFlowLayout(context *layoutContext, box_ bo.Box, index int, child_ Box, ne
 			nextPage = tree.PageBreak{Break: pageBreak, Page: pageName}
 			resumeAt = tree.ResumeStack{index: nil}
 			stop = true
-			return abort, stop, resumeAt, positionY, *adjoiningMargins, nextPage, newChildren, maxLines
+			return abort, stop, resumeAt, positionY, *adjoiningMargins, nextPage, newChildren, maxLines, collapsedThrough
 		}
 	}
 
@@ -917,6 +936,7 @@ func inFlowLayout(context *layoutContext, box_ bo.Box, index int, child_ Box, ne
 		newContainingBlock, pageIsEmptyWithNoChildren, absoluteBoxes, fixedBoxes, adjoiningMargins, discard, maxLines)
 	resumeAt, nextPage = tmp.resumeAt, tmp.nextPage
 	nextAdjoiningMargins, collapsingThrough := tmp.adjoiningMargins, tmp.collapsingThrough
+	collapsedThrough = collapsingThrough && newChild_ != nil
 
 	if traceMode {
 		traceLogger.Dump(fmt.Sprintf("in inFlowLayout: blockLevelLayout -> %s", resumeAt))
@@ -983,7 +1003,7 @@ func inFlowLayout(context *layoutContext, box_ bo.Box, index int, child_ Box, ne
 			if r1 != nil || r2 != nil {
 				newChildren, resumeAt = r1, r2
 				stop = true
-				return abort, stop, resumeAt, positionY, *adjoiningMargins, nextPage, newChildren, maxLines
+				return abort, stop, resumeAt, positionY, *adjoiningMargins, nextPage, newChildren, maxLines, collapsedThrough
 			} else {
 				// We did not find any page break opportunity
 				if !pageIsEmpty {
@@ -991,7 +1011,7 @@ func inFlowLayout(context *layoutContext, box_ bo.Box, index int, child_ Box, ne
 					// cancel the block and try to find a break
 					// in the parent.
 					abort = true
-					return abort, stop, resumeAt, positionY, *adjoiningMargins, nextPage, newChildren, maxLines
+					return abort, stop, resumeAt, positionY, *adjoiningMargins, nextPage, newChildren, maxLines, collapsedThrough
 				}
 				// else : ignore this "avoid" and break anyway.
 			}
@@ -1018,7 +1038,7 @@ func inFlowLayout(context *layoutContext, box_ bo.Box, index int, child_ Box, ne
 			// completly
 			abort = true
 		}
-		return abort, stop, resumeAt, positionY, *adjoiningMargins, nextPage, newChildren, maxLines
+		return abort, stop, resumeAt, positionY, *adjoiningMargins, nextPage, newChildren, maxLines, collapsedThrough
 	}
 
 	// index in its non-laid-out parent, not in future new parent
@@ -1030,7 +1050,7 @@ func inFlowLayout(context *layoutContext, box_ bo.Box, index int, child_ Box, ne
 		stop = true
 	}
 
-	return abort, stop, resumeAt, positionY, *adjoiningMargins, nextPage, newChildren, maxLines
+	return abort, stop, resumeAt, positionY, *adjoiningMargins, nextPage, newChildren, maxLines, collapsedThrough
 }
 
 // Return the amount of collapsed margin for a list of adjoining margins.
